@@ -27,7 +27,7 @@ func nextPacketOf(b []byte) (*astits.Packet, error) {
 }
 
 func writePacketOf(p *astits.Packet) ([]byte, int, error) {
-	var buf bytes.Buffer
+	var buf cappedBuffer
 	m := astits.NewMuxer(context.Background(), &buf)
 	n, err := m.WritePacket(p)
 	return buf.Bytes(), n, err
